@@ -655,7 +655,7 @@ func c05ConcCase(op msOp, words [][]h.Ev, bound int) fw.Case {
 				})
 			}
 		}
-		return fw.Instance{Body: body, Outcome: func() string { return implOutcome(set) }, Nontrivial: func(r *vrt.Result) bool { return r.Switches > 2 }, Check: func(r *vrt.Result) []fw.Violation {
+		return fw.Instance{Body: body, Outcome: func() string { return implOutcome(set) }, Recorders: set.all, Nontrivial: func(r *vrt.Result) bool { return r.Switches > 2 }, Check: func(r *vrt.Result) []fw.Violation {
 			var res []fw.Violation
 			where := fmt.Sprintf("%s with concurrent sources %s", op.name, strings.Join(names, " "))
 			if escaped != "" {
@@ -797,11 +797,11 @@ func init() {
 					tuples = append(tuples, append([][]h.Ev{}, cur...))
 					return
 				}
-				mv := maxVals
-				if op.k == 3 && mv > 1 {
-					mv = mv - 1
+				al := alph[i]
+				if op.k == 3 {
+					al = al[:1] // one letter per source keeps the 3-source tuples enumerable at full length
 				}
-				for _, w := range c05Scripts(alph[i], mv) {
+				for _, w := range c05Scripts(al, maxVals) {
 					build(i+1, append(cur, w))
 				}
 			}
